@@ -113,7 +113,17 @@ func MutateStatic(t *sim.T, m *StaticModel, focus FaultFocus) string {
 			return ""
 		}
 		r := t.Choose(len(tb.Rows))
-		setCell(tb, r, col, fmt.Sprintf("dangling%d", t.Choose(3)))
+		dangling := fmt.Sprintf("dangling%d", t.Choose(3))
+		if t.Chance(1, 2) {
+			// an id that looks like the ids of other feeds (every generated feed numbers its entities the same
+			// way): a lookup structure that survives from an earlier parse would resolve it
+			prefix := map[string]string{"agency_id": "ag", "parent_station": "s", "from_stop_id": "s", "to_stop_id": "s", "stop_id": "s", "route_id": "r", "service_id": "svc", "shape_id": "sh", "trip_id": "t"}[tb.Header[col]]
+			dangling = fmt.Sprintf("%s%d", prefix, 90+t.Choose(40))
+			if t.Chance(1, 2) {
+				dangling = fmt.Sprintf("%s%d", prefix, len(tb.Rows)+t.Choose(6)+len(m.StopIDs))
+			}
+		}
+		setCell(tb, r, col, dangling)
 		return fmt.Sprintf("dangling reference in %s row %d col %s", tb.Name, r+1, tb.Header[col])
 	case 3: // duplicate a row (duplicate ids)
 		tb := pickTable(t, f)
